@@ -1,0 +1,248 @@
+//go:build verif
+
+package amd64
+
+// Verification hook (property C02): table-driven runner of the real lowerToAddressMode on tiny SSA
+// pointer-expression trees. It reads cases from the file named by WAZERO_VERIF_AMODE_IN and writes
+// the returned address mode, with the constants of the emitted `mov imm`/`shl` instructions
+// substituted for the temporaries, to WAZERO_VERIF_AMODE_OUT. It is a _test.go file so that it can
+// reuse this package's mockCompiler; without the `verif` build tag it does not exist.
+//
+// Case line:   <id> <offBase> <ptr>
+//	ptr    := S <addend> | A <self> <addend> <addend>        (A = matched 64-bit Iadd living in vreg <self>)
+//	addend := r64 <r> | k64 <c> <matched> | k32 <c> <matched> | ux r <r> | ux c <c> | sx r <r> | sx c <c>
+//	          | shl (xr <r> | xc <c>) (ac <amount> | ar <r>)
+// Result line: <id> imm=<u32> base=<reg> index=<reg>*<shift>|-        or   <id> panic
+//	reg    := v<r> (an input vreg) | t<constant> (fresh vreg loaded with a constant) | s<r>:<k> (input vreg shifted in place)
+
+import (
+	"bufio"
+	"fmt"
+	"os"
+	"strconv"
+	"strings"
+	"testing"
+
+	"github.com/tetratelabs/wazero/internal/engine/wazevo/backend"
+	"github.com/tetratelabs/wazero/internal/engine/wazevo/backend/regalloc"
+	"github.com/tetratelabs/wazero/internal/engine/wazevo/ssa"
+)
+
+const verifInputVRegBase = 1000
+
+type verifAmodeBuilder struct {
+	ctx    *mockCompiler
+	b      ssa.Builder
+	toks   []string
+	params map[string]ssa.Value
+}
+
+func (v *verifAmodeBuilder) next() string {
+	if len(v.toks) == 0 {
+		panic("verif: truncated case")
+	}
+	t := v.toks[0]
+	v.toks = v.toks[1:]
+	return t
+}
+
+func (v *verifAmodeBuilder) num() uint64 {
+	n, err := strconv.ParseUint(v.next(), 0, 64)
+	if err != nil {
+		panic("verif: bad number")
+	}
+	return n
+}
+
+func (v *verifAmodeBuilder) param(r uint64, typ ssa.Type) ssa.Value {
+	key := fmt.Sprintf("%d/%s", r, typ)
+	if p, ok := v.params[key]; ok {
+		return p
+	}
+	p := v.b.CurrentBlock().AddParam(v.b, typ)
+	v.ctx.vRegMap[p] = regalloc.VReg(verifInputVRegBase + r).SetRegType(regalloc.RegTypeInt)
+	v.ctx.definitions[p] = backend.SSAValueDefinition{V: p}
+	v.params[key] = p
+	return p
+}
+
+func (v *verifAmodeBuilder) constant(c uint64, bits64 bool, matched bool) ssa.Value {
+	i := v.b.AllocateInstruction()
+	if bits64 {
+		i.AsIconst64(c)
+	} else {
+		i.AsIconst32(uint32(c))
+	}
+	i.Insert(v.b)
+	def := backend.SSAValueDefinition{Instr: i, V: i.Return()}
+	if !matched {
+		def.RefCount = 2
+	}
+	v.ctx.definitions[i.Return()] = def
+	return i.Return()
+}
+
+func (v *verifAmodeBuilder) instr(i *ssa.Instruction) ssa.Value {
+	i.Insert(v.b)
+	v.ctx.definitions[i.Return()] = backend.SSAValueDefinition{Instr: i, V: i.Return()}
+	return i.Return()
+}
+
+func (v *verifAmodeBuilder) addend() ssa.Value {
+	switch k := v.next(); k {
+	case "r64":
+		return v.param(v.num(), ssa.TypeI64)
+	case "k64":
+		c := v.num()
+		return v.constant(c, true, v.num() != 0)
+	case "k32":
+		c := v.num()
+		return v.constant(c, false, v.num() != 0)
+	case "ux", "sx":
+		var in ssa.Value
+		if v.next() == "r" {
+			in = v.param(v.num(), ssa.TypeI32)
+		} else {
+			in = v.constant(v.num(), false, true)
+		}
+		i := v.b.AllocateInstruction()
+		if k == "ux" {
+			i.AsUExtend(in, 32, 64)
+		} else {
+			i.AsSExtend(in, 32, 64)
+		}
+		return v.instr(i)
+	case "shl":
+		var x, amt ssa.Value
+		if v.next() == "xr" {
+			x = v.param(v.num(), ssa.TypeI64)
+		} else {
+			x = v.constant(v.num(), true, true)
+		}
+		if v.next() == "ac" {
+			amt = v.constant(v.num(), true, true)
+		} else {
+			amt = v.param(v.num(), ssa.TypeI64)
+		}
+		return v.instr(v.b.AllocateInstruction().AsIshl(x, amt))
+	default:
+		panic("verif: bad addend kind " + k)
+	}
+}
+
+func verifAmodeCase(line string) (out string) {
+	f := strings.Fields(line)
+	id := f[0]
+	defer func() {
+		if r := recover(); r != nil {
+			if s, ok := r.(string); ok && strings.HasPrefix(s, "verif:") {
+				panic(r)
+			}
+			out = id + " panic"
+		}
+	}()
+	off, err := strconv.ParseUint(f[1], 0, 32)
+	if err != nil {
+		panic("verif: bad offset")
+	}
+	ctx, b, m := newSetupWithMockContext()
+	v := &verifAmodeBuilder{ctx: ctx, b: b, toks: f[2:], params: map[string]ssa.Value{}}
+	var ptr ssa.Value
+	switch v.next() {
+	case "S":
+		ptr = v.addend()
+	case "A":
+		self := v.num()
+		x := v.addend()
+		y := v.addend()
+		ptr = v.instr(b.AllocateInstruction().AsIadd(x, y))
+		ctx.vRegMap[ptr] = regalloc.VReg(verifInputVRegBase + self).SetRegType(regalloc.RegTypeInt)
+	default:
+		panic("verif: bad ptr kind")
+	}
+	if len(v.toks) != 0 {
+		panic("verif: trailing tokens")
+	}
+	am := m.lowerToAddressMode(ptr, uint32(off))
+
+	// constants held by the fresh temporaries / in-place shifts, from the emitted instructions
+	tmp := map[regalloc.VRegID]uint64{}
+	shifted := map[regalloc.VRegID]uint64{}
+	for _, i := range m.pendingInstructions {
+		switch i.kind {
+		case imm:
+			c := i.u1
+			if !i.b1 {
+				c &= 0xffffffff
+			}
+			tmp[i.op2.reg().ID()] = c
+		case zeros:
+			tmp[i.op2.reg().ID()] = 0
+		case shiftR:
+			if shiftROp(i.u1) != shiftROpShiftLeft || i.op1.kind != operandKindImm32 {
+				panic("verif: unexpected shift " + i.String())
+			}
+			r := i.op2.reg().ID()
+			if c, ok := tmp[r]; ok {
+				tmp[r] = c << i.op1.imm32()
+			} else {
+				shifted[r] += uint64(i.op1.imm32())
+			}
+		default:
+			panic("verif: unexpected instruction " + i.String())
+		}
+	}
+	name := func(r regalloc.VReg) string {
+		id := r.ID()
+		if c, ok := tmp[id]; ok {
+			return fmt.Sprintf("t%d", c)
+		}
+		if id < verifInputVRegBase {
+			panic("verif: temporary without a constant")
+		}
+		if k, ok := shifted[id]; ok {
+			return fmt.Sprintf("s%d:%d", id-verifInputVRegBase, k)
+		}
+		return fmt.Sprintf("v%d", id-verifInputVRegBase)
+	}
+	switch am.kind() {
+	case amodeImmReg:
+		return fmt.Sprintf("%s imm=%d base=%s index=-", id, am.imm32, name(am.base))
+	case amodeRegRegShift:
+		return fmt.Sprintf("%s imm=%d base=%s index=%s*%d", id, am.imm32, name(am.base), name(am.index), am.shift())
+	default:
+		panic("verif: unexpected amode kind")
+	}
+}
+
+func TestVerifAmode(t *testing.T) {
+	in, outp := os.Getenv("WAZERO_VERIF_AMODE_IN"), os.Getenv("WAZERO_VERIF_AMODE_OUT")
+	if in == "" || outp == "" {
+		t.Skip("WAZERO_VERIF_AMODE_IN / WAZERO_VERIF_AMODE_OUT not set")
+	}
+	f, err := os.Open(in)
+	if err != nil {
+		t.Fatal(err)
+	}
+	defer f.Close()
+	o, err := os.Create(outp)
+	if err != nil {
+		t.Fatal(err)
+	}
+	w := bufio.NewWriter(o)
+	sc := bufio.NewScanner(f)
+	sc.Buffer(make([]byte, 1<<16), 1<<20)
+	for sc.Scan() {
+		line := strings.TrimSpace(sc.Text())
+		if line == "" {
+			continue
+		}
+		fmt.Fprintln(w, verifAmodeCase(line))
+	}
+	if err := w.Flush(); err != nil {
+		t.Fatal(err)
+	}
+	if err := o.Close(); err != nil {
+		t.Fatal(err)
+	}
+}
